@@ -1363,6 +1363,37 @@ pub fn mono_with_diagnostics(
         }
     }
 
+    // So can the signatures of trait methods (`trait Shape { fn dims(Self) -> Box[int64]; }`):
+    // the vtable of a `dyn` value is written from them.
+    let trait_names: Vec<String> = m
+        .monoenv
+        .genv
+        .trait_env
+        .trait_defs
+        .keys()
+        .cloned()
+        .collect();
+    for trait_name in trait_names {
+        let sigs: Vec<(String, Ty)> = m.monoenv.genv.trait_env.trait_defs[&trait_name]
+            .methods
+            .iter()
+            .map(|(name, scheme)| (name.clone(), scheme.ty.clone()))
+            .collect();
+        for (method, ty) in sigs {
+            let ty = m.collapse_type_apps(&ty);
+            if let Some(scheme) = m
+                .monoenv
+                .genv
+                .trait_env
+                .trait_defs
+                .get_mut(&trait_name)
+                .and_then(|def| def.methods.get_mut(&method))
+            {
+                scheme.ty = ty;
+            }
+        }
+    }
+
     // Drop all generic enum defs to avoid Go backend panics
     m.monoenv.retain_enums(|_n, def| def.generics.is_empty());
     m.monoenv.retain_structs(|_n, def| def.generics.is_empty());
